@@ -38,10 +38,10 @@ Section JumpProofs.
 
   (* the repaired loop: for any delimiter, usable or not, and any failure pattern of the input *)
   Lemma jump_to_terminates : forall fuel usable row s,
-    lines_left s < fuel -> jump_to span io_fails fuel usable row s <> JumpOutOfFuel.
+    lines_left s < fuel -> jump_gen span io_fails true fuel usable row s <> JumpOutOfFuel.
   Proof.
     induction fuel as [|k IH]; intros usable row s Hf; [lia|].
-    cbn [jump_to]. destruct (Nat.ltb (numline s) row); [|discriminate].
+    cbn [jump_gen]. destruct (Nat.ltb (numline s) row); [|discriminate].
     unfold csv_read. destruct usable; cbn [negb]; [|discriminate].
     destruct (io_fails s); [discriminate|].
     destruct (Nat.eqb (lines_left s) 0) eqn:E0; [discriminate|].
@@ -51,10 +51,10 @@ Section JumpProofs.
 
   (* old loop, unusable delimiter: the line counter never moves: out of fuel for every fuel *)
   Lemma jump_to_old_spins : forall fuel s row, numline s < row ->
-    jump_to_old span io_fails fuel false row s = JumpOutOfFuel.
+    jump_gen span io_fails false fuel false row s = JumpOutOfFuel.
   Proof.
     induction fuel as [|k IH]; intros s row Hlt; [reflexivity|].
-    cbn [jump_to_old]. assert (Nat.ltb (numline s) row = true) as -> by (apply Nat.ltb_lt; exact Hlt).
+    cbn [jump_gen]. assert (Nat.ltb (numline s) row = true) as -> by (apply Nat.ltb_lt; exact Hlt).
     unfold csv_read. cbn [negb]. apply IH. exact Hlt.
   Qed.
 End JumpProofs.
@@ -62,10 +62,10 @@ End JumpProofs.
 (* old loop, usable delimiter, input failing persistently: one iteration per row to skip -- the
    number of iterations is the schema's row index, not bounded by the input *)
 Lemma jump_to_old_fault_spins span : forall fuel s row, numline s + fuel <= row ->
-  jump_to_old span (fun _ => true) fuel true row s = JumpOutOfFuel.
+  jump_gen span (fun _ => true) false fuel true row s = JumpOutOfFuel.
 Proof.
   induction fuel as [|k IH]; intros s row Hlt; [reflexivity|].
-  cbn [jump_to_old]. assert (Nat.ltb (numline s) row = true) as -> by (apply Nat.ltb_lt; lia).
+  cbn [jump_gen]. assert (Nat.ltb (numline s) row = true) as -> by (apply Nat.ltb_lt; lia).
   unfold csv_read. cbn [negb]. apply IH. cbn [numline]. lia.
 Qed.
 
@@ -77,14 +77,13 @@ Proof.
     apply andb_true_iff in H as [_ H]; [apply csv_check_usable|apply csv2_check_usable]; exact H.
 Qed.
 
+(* depends on Gen/Safety.v: jumpTo as it is in the source now *)
 Theorem csv_jump_terminates_lemma :
   forall span io_fails, (forall s, 0 < lines_left s -> 1 <= span s <= lines_left s) ->
-  forall usable row s, jump_to span io_fails (lines_left s + 1) usable row s <> JumpOutOfFuel.
+  forall usable row s,
+    jump_gen span io_fails csv_jumpto_fails_on_non_parse_error (lines_left s + 1) usable row s <> JumpOutOfFuel.
 Proof. intros span io_fails Hs usable row s. apply jump_to_terminates; [exact Hs|lia]. Qed.
 
-(* The pre-fix validation accepted every single-rune delimiter; a double quote made the first Read
-   of the pre-fix loop spin (F15).  With a usable delimiter and a persistently failing input the
-   pre-fix loop needs as many iterations as the row index says (N10). *)
 Lemma csv_delim_hang_old_refuted_lemma :
   (exists r : N, stdcsv_delim_usable r = false /\
     forall span io_fails fuel, jump_to_old span io_fails fuel (stdcsv_delim_usable r) 1 (mkCsv 0 3) = JumpOutOfFuel)
